@@ -128,6 +128,27 @@ func PathOf(v ssa.Value) Path {
 			p = rp
 			continue
 		}
+		// a field of a local struct (a small context object built once and handed
+		// to its methods / helpers) denotes the value stored into that field, when
+		// that store is the only one to this field of this type in the module
+		if len(p.Fields) > 0 {
+			var al *ssa.Alloc
+			switch x := p.Root.(type) {
+			case *ssa.Alloc:
+				al = x
+			case *ssa.UnOp:
+				if x.Op == token.MUL {
+					al, _ = x.X.(*ssa.Alloc)
+				}
+			}
+			if al != nil {
+				if fv := forwardedField(al, strings.TrimPrefix(p.Fields[0], "&")); fv != nil && !strings.HasPrefix(p.Fields[0], "&") {
+					outer := pathOf(fv)
+					p = Path{Root: outer.Root, Fields: append(append([]string{}, outer.Fields...), p.Fields[1:]...)}
+					continue
+				}
+			}
+		}
 		nv, ok := substituted(p.Root)
 		if !ok {
 			break
@@ -561,4 +582,72 @@ func TableRows(pth Path) (rows []ssa.Value, cell *ssa.IndexAddr, ok bool) {
 		}
 	}
 	return rows, ia, true
+}
+
+
+var fieldStoreCount map[string]int
+
+// forwardedField: the single value stored into field name of the local struct
+// al, provided no other store to that field of that struct type exists anywhere
+// in the module (so a method or helper handed the struct cannot have changed it).
+func forwardedField(al *ssa.Alloc, name string) ssa.Value {
+	pt, ok := al.Type().Underlying().(*types.Pointer)
+	if !ok {
+		return nil
+	}
+	named, ok := pt.Elem().(*types.Named)
+	if !ok || named.Obj().Pkg() == nil || !strings.HasPrefix(named.Obj().Pkg().Path(), ModulePath) {
+		return nil
+	}
+	if _, isStruct := named.Underlying().(*types.Struct); !isStruct {
+		return nil
+	}
+	// only unexported helper types: messages and API types are roots in their own right
+	if named.Obj().Exported() {
+		return nil
+	}
+	if CurProg == nil {
+		return nil
+	}
+	if fieldStoreCount == nil {
+		fieldStoreCount = map[string]int{}
+		for _, fn := range CurProg.ModuleFuncs() {
+			for _, b := range fn.Blocks {
+				for _, in := range b.Instrs {
+					st, isSt := in.(*ssa.Store)
+					if !isSt {
+						continue
+					}
+					if fa, isFA := st.Addr.(*ssa.FieldAddr); isFA {
+						tn, f := FieldAddrName(fa)
+						fieldStoreCount[tn+"."+f]++
+					}
+				}
+			}
+		}
+	}
+	var val ssa.Value
+	n := 0
+	for _, ref := range *al.Referrers() {
+		fa, isFA := ref.(*ssa.FieldAddr)
+		if !isFA || fieldName(fa.X.Type(), fa.Field) != name {
+			continue
+		}
+		for _, r2 := range *fa.Referrers() {
+			if st, isSt := r2.(*ssa.Store); isSt && st.Addr == ssa.Value(fa) {
+				val = st.Val
+				n++
+			}
+		}
+		if n == 1 {
+			tn, f := FieldAddrName(fa)
+			if fieldStoreCount[tn+"."+f] != 1 {
+				return nil
+			}
+		}
+	}
+	if n != 1 {
+		return nil
+	}
+	return val
 }
